@@ -157,6 +157,14 @@ impl World {
                 self.op_commit(i, None)?;
                 self.after_step(&[i])
             }
+            Op::Resubmit { r } => {
+                let i = self.rix(*r);
+                if let Some(d) = self.reps[i].last_doc.clone() {
+                    self.bump("resubmissions");
+                    self.submit(i, d, None)?;
+                }
+                self.after_step(&[i])
+            }
             Op::FaultyCommit { r, k, info } => {
                 let i = self.rix(*r);
                 self.op_faulty_commit(i, *k, info_map(info))?;
@@ -209,6 +217,7 @@ impl World {
             return Ok(());
         }
         self.bump("updates");
+        self.reps[i].last_doc = Some(doc.clone());
         // bookkeeping: contents submitted per id
         let mut tr = vec![];
         model::collect_tracked(&doc, &mut vec![], &mut tr);
